@@ -1311,6 +1311,36 @@ Proof.
   - eexists. split; [vm_compute; reflexivity|]. vm_compute. reflexivity.
 Qed.
 
+(* ================================================================== *)
+(* Re-serialising what was parsed (relevant to "append preserves history", C08) *)
+(* ================================================================== *)
+Lemma norm_file_idem e : norm_file (norm_file e) = norm_file e.
+Proof. destruct e as [es nm ct at_ [[m|]|] [[a|]|]]; reflexivity. Qed.
+Lemma norm_folder_idem f : norm_folder (norm_folder f) = norm_folder f.
+Proof. reflexivity. Qed.
+Lemma mask_digests_idem dd : forall dg, mask_digests (mask_digests dg dd) dd = mask_digests dg dd.
+Proof.
+  unfold mask_digests. induction dd as [|d dd IH]; intros dg; [destruct dg; reflexivity|].
+  destruct dg as [|c dg]; [reflexivity|]. cbn [combine map fst snd]. rewrite IH. destruct d; reflexivity.
+Qed.
+Lemma norm_sub_idem s : norm_sub (norm_sub s) = norm_sub s.
+Proof.
+  unfold norm_sub, sub_multi. cbn [s_nums s_sizes s_digestsdefined s_digests].
+  rewrite mask_digests_idem. destruct (existsb _ _); reflexivity.
+Qed.
+
+(* N-PACK-CRC-UNDEFINED is NOT idempotent: the reader compacts the CRC list to the defined
+   entries, the writer indexes it by stream number and insists on len(crcs) = numstreams.
+   A header that py7zr has read (here: the example, whose pack CRCs are [defined; undefined])
+   can therefore not be written again: *)
+Example reparsed_header_not_rewritable_refuted :
+  exists bs h', write_header false 32 ex_header = Ok bs /\ parse_header 1000 bs = Ok h' /\
+                write_header false 32 h' = Err EOther /\ write_header true 32 h' = Err EOther.
+Proof.
+  eexists. eexists. split; [vm_compute; reflexivity|]. split; [vm_compute; reflexivity|].
+  split; vm_compute; reflexivity.
+Qed.
+
 Print Assumptions header_roundtrip.
 Print Assumptions header_write_wf.
 Print Assumptions files_roundtrip.
